@@ -510,9 +510,8 @@ func (g *gen) field(thisField, thatField string, fieldType types.Type) (string, 
 	case *types.Array, *types.Map:
 		return fmt.Sprintf("%s(%s, %s)", g.GetFuncName(typ, typ), thisField, thatField), nil
 	case *types.Slice:
-		if b, ok := typ.Elem().(*types.Basic); ok && b.Kind() == types.Byte {
-			return fmt.Sprintf("%s.Compare(%s, %s)", g.bytesPkg(), thisField, thatField), nil
-		}
+		// a slice of bytes is compared like every other slice and not with bytes.Compare,
+		// which does not order a nil slice before an empty slice.
 		return fmt.Sprintf("%s(%s, %s)", g.GetFuncName(typ, typ), thisField, thatField), nil
 	case *types.Struct:
 		return g.field("&"+thisField, "&"+thatField, types.NewPointer(fieldType))
